@@ -60,10 +60,11 @@ def run_behaviour(b):
                         rng.shuffle(x)
                     S, S0, R = pymc.as_container(S, rng), pymc.as_container(S0, rng), pymc.as_container(R, rng, pairs=True)
                 L = dict(items)
+                sub = b.get('shuf') is not None and rng.random() < 0.15      # an instance of a user subclass with its own constructor signature
                 if b.get('args', 'full') == 'none-if-empty':
-                    k = pymc.Kripke(S=S or None, S0=S0 or None, R=R or None, L=L or None)
+                    k = pymc.new_kripke(S or None, S0 or None, R or None, L or None, sub=sub)
                 else:
-                    k = pymc.Kripke(S=S, S0=S0, R=R, L=L)
+                    k = pymc.new_kripke(S, S0, R, L, sub=sub)
                 pool[c['new']] = k
                 out = {'ret': 'none'}
             elif op == 'drop':
